@@ -305,6 +305,13 @@ def monitor(script):
                     hit("orphan-not-abandoned", f"block {pending} left the best chain but its request is still outstanding after the poll: {op}")
             if not orphaned and ret not in ("pending", "stalled"):
                 hit("abandoned-on-chain", f"block {pending} is still on the best chain but the round was ended by the poll: {op}")
+            if orphaned and not mgr_dead:
+                # the round must end with the abort: nothing of the orphaned chain is requested or processed any more
+                off = [q for q in _ilist(o.get("reqs", "[]")) + _ilist(o.get("cb", "[]"))
+                       if q != pending and q in rnd.chain and (rnd.chain.index(q) >= len(chain) or chain[rnd.chain.index(q)] != q)]
+                if off:
+                    hit("orphaned-chain-continued",
+                        f"after block {pending} left the best chain and its request was aborted, the round went on with blocks {off[:6]} of the orphaned chain: {op}")
             rnd = feed(rnd, line, o, False)
             if ret not in ("pending", "stalled"):
                 rnd, pending = None, None
